@@ -25,6 +25,54 @@ extern "C" void xbt_mallocator_release(xbt_mallocator_t m, void* o) { m->free_f(
 extern "C" void xbt_mallocator_free(xbt_mallocator_t) {}
 using namespace simgrid::kernel::lmm;
 
+#if P_SETUP == 3
+// second topology: A and B limited to 1; x0 on A and y on B run; w1 (on A and B) and w2 (on A only) are staged behind them, in that order.
+// P_OP 1: variable_free(x0) ; 2: disable x0 (penalty 0) ; 5: variable_free(y)
+extern "C" void harness_conc()
+{
+  MaxMin& sys = *new MaxMin(false);
+  Constraint* c[2];
+  int lim[2] = {1, 1};
+  for (int i = 0; i < 2; i++) {
+    c[i] = sys.constraint_new(nullptr, 10.0);
+    c[i]->set_concurrency_limit(1);
+  }
+  Variable* x0 = sys.variable_new(nullptr, 1.0, -1.0, 2);
+  Variable* y  = sys.variable_new(nullptr, 1.0, -1.0, 2);
+  Variable* w1 = sys.variable_new(nullptr, 1.0, -1.0, 2);
+  Variable* w2 = sys.variable_new(nullptr, 1.0, -1.0, 2);
+  sys.expand(c[0], x0, 1.0);
+  sys.expand(c[1], y, 1.0);
+  sys.expand(c[0], w1, 1.0);
+  sys.expand(c[1], w1, 1.0);
+  sys.expand(c[0], w2, 1.0);
+  CHECK(w1->staged_sharing_penalty_ > 0 && w2->staged_sharing_penalty_ > 0, "activities that find no free slot are staged");
+  // symbolic limit on B (>= current use); A stays at 1 so that both waiters are really blocked by x0
+  lim[1] = nondet_int();
+  ASSUME(lim[1] >= 1 && lim[1] <= 4);
+  c[1]->set_concurrency_limit(lim[1]);
+#if P_OP == 1
+  sys.variable_free(x0);
+#elif P_OP == 2
+  sys.update_variable_penalty(x0, 0.0);
+#elif P_OP == 5
+  sys.variable_free(y);
+#endif
+  for (int i = 0; i < 2; i++) {
+    int conc = 0;
+    for (Element const& e : c[i]->enabled_element_set_) {
+      CHECK(e.variable->sharing_penalty_ > 0, "only enabled activities sit in the enabled set of a resource");
+      conc += e.get_concurrency();
+    }
+    CHECK(conc <= lim[i], "a resource never has more enabled activities than its concurrency limit");
+    CHECK(c[i]->concurrency_current_ == conc, "the concurrency counter equals the number of enabled activities counting towards the limit");
+    for (Element const& e : c[i]->disabled_element_set_)
+      CHECK(e.variable->staged_sharing_penalty_ == 0 || e.variable->get_min_concurrency_slack() == 0,
+            "a staged activity uses at least one resource without a free slot (no starvation while everything has room)");
+  }
+  verif_witness();
+}
+#else
 extern "C" void harness_conc()
 {
   MaxMin& sys = *new MaxMin(false);
@@ -89,3 +137,4 @@ extern "C" void harness_conc()
 #endif
   verif_witness();
 }
+#endif
